@@ -109,9 +109,22 @@ Print Assumptions map_len_get.
 (*    Filter: the accepted elements (List.filter); fuel adequacy: length of the underlying chain. *)
 Theorem filter_view : forall f u cvs p, wb f u cvs -> (length cvs <= f)%nat ->
   wb f (IFilter p u) (filter (acc_of p) cvs) /\
-  map snd (filter (acc_of p) cvs) = filter p (map snd cvs).
+  map snd (filter (acc_of p) cvs) = filter (fun v => is_some (p v)) (map snd cvs).
 Proof. exact IterProofs.filter_summary. Qed.
 Print Assumptions filter_view.
+(*    A predicate answers with an OBJECT (None = NULL = reject); only NULL / non-NULL matters: predicates that accept
+      the same items give the same chain, made of the underlying iterable's own cursors and items (identity), so Filter
+      yields exactly the accepted ELEMENTS in order whatever object the predicate answers with. *)
+Theorem filter_yields_the_elements : forall f u cvs p q, wb f u cvs -> (length cvs <= f)%nat ->
+  (forall v, is_some (p v) = is_some (q v)) ->
+  filter (acc_of p) cvs = filter (acc_of q) cvs /\
+  wb f (IFilter p u) (filter (acc_of q) cvs) /\
+  (forall i c v, nth_error (filter (acc_of p) cvs) i = Some (c, v) -> In (c, v) cvs).
+Proof. exact IterProofs.filter_answer_irrelevant. Qed.
+Print Assumptions filter_yields_the_elements.
+Example filter_yields_the_elements_nonvacuous :
+  (forall v, is_some (pred_of 6 v) = is_some (pred_of 2 v)) /\ pred_of 6 (VObj 3 4) = Some flag_obj /\ pred_of 2 (VObj 3 4) = Some (VObj 3 4).
+Proof. split; [|split; reflexivity]. intros v. unfold pred_of. now destruct (Z.rem (vkey v) 2 =? 0)%Z. Qed.
 Example filter_view_nonvacuous :
   wb 4 (IRange (mkRng 0 4 1)) (range_chain (mkRng 0 4 1)) /\ (length (range_chain (mkRng 0 4 1)) <= 4)%nat.
 Proof.
@@ -214,7 +227,7 @@ Print Assumptions enumerate_view.
 (*    Composition to depth 3 over an arbitrary well-behaved u (itself possibly a view). *)
 Theorem nested_views_compose : forall f u cvs r g p,
   wb f u cvs -> it_len repaired u = OVal (zlen cvs) -> slice_ok r (zlen cvs) -> (length cvs <= f)%nat ->
-  iterates f (IFilter p (IMap g (ISlice u r))) (filter p (map g (slice_sel r (map snd cvs)))).
+  iterates f (IFilter p (IMap g (ISlice u r))) (filter (fun v => is_some (p v)) (map g (slice_sel r (map snd cvs)))).
 Proof. exact IterProofs.nested_views. Qed.
 Print Assumptions nested_views_compose.
 
